@@ -133,6 +133,21 @@ theorem invalid_key_err_partial (lookup : Env) (ls : List Line) (hwf : WF ls = t
   funext m
   exact parseLoop_badkey f indent exp pre c rest m lookup hi he hpre hlead hexp hc hhash
 
+/-- After ANY well-formed lines, an assignment whose key text consists of two words separated by white space
+    (space, tab, VT, FF, CR, NEL, NBSP — all of them after the `fix:` commit) is the error "key cannot contain a space". -/
+theorem key_with_space_err (lookup : Env) (ls : List Line) (hwf : WF ls = true)
+    (indent : Str) (exp : Option Str) (k1 ws k2 ws1 : Str) (sep : Sep) (X : Str)
+    (hi : nbAll indent = true) (he : expOk exp = true) (hk1 : validKey k1 = true)
+    (hws : nbAll ws = true) (hne : ws ≠ []) (hk2 : k2.all isKeyRune = true) (hne2 : k2 ≠ []) (h1 : nbAll ws1 = true) :
+    parse (render ls ++ (indent ++ (renderExp exp ++ (k1 ++ (ws ++ (k2 ++ (ws1 ++ sep.char :: X))))))) lookup =
+      (evalLines lookup ls).andThen (fun m => .err .keySpace m) := by
+  obtain ⟨f, hf⟩ := parse_render_prefix lookup ls hwf
+    (indent ++ (renderExp exp ++ (k1 ++ (ws ++ (k2 ++ (ws1 ++ sep.char :: X))))))
+  rw [hf]
+  congr 1
+  funext m
+  exact parseLoop_keyspace f indent exp k1 ws k2 ws1 sep X m lookup hi he hk1 hws hne hk2 hne2 h1
+
 /-- non-vacuity: `A$B=1` after a valid line -/
 example : badChar '$' = true ∧ ['A'].all okChar = true ∧ exportKw.isPrefixOf ['A'] = false := by decide
 example : parse ['X', '=', '1', '\n', 'A', '$', 'B', '=', '1'] (fun _ => none) = .err .unexpectedChar [(['X'], ['1'])] := by decide
